@@ -42,7 +42,7 @@ func buildCorpus(t *testing.T) {
 	var progs []*Program
 	rapid.Check(t, func(rt *rapid.T) {
 		if len(progs) < corpusSize {
-			progs = append(progs, genProgram(rt, genOpts{probes: true, mapRegions: true, pureMapBody: true, sideEffects: true, failing: true, failPct: 15, probePct: 20, maxPieces: 5, litModePct: 10}))
+			progs = append(progs, genProgram(rt, genOpts{tolerant: true, toleratedOnly: true, lateLet: true, probes: true, mapRegions: true, pureMapBody: true, sideEffects: true, failing: true, failPct: 15, probePct: 20, maxPieces: 5, litModePct: 10}))
 		}
 	})
 	_ = flag.Set("rapid.seed", oldSeed)
